@@ -13,7 +13,7 @@ behaviour of each C new_point), integers symbolic:
   rsa_construct   : RSA.construct((n,e,d,p,q,u)) with consistency checking on ALL component tuples of reduced
                     width: accepted exactly when n = p*q with prime p, q, 1<e<n, gcd(e,n)=1, e*d = 1 mod
                     lcm(p-1,q-1), 1<d<n, gcd(d,n)=1, 1<u<q, p*u = 1 mod q  (primality by table at this width)
-  dsa_construct / elgamal_construct : the same for DSA (p, q, g, y, x) and ElGamal at reduced width
+  dsa_construct / elgamal_construct : the same for DSA (p, q, g, y, x) and ElGamal (p, g, y, x) at reduced width
 NOT decided: key generation loops on real sizes (FIPS 186-4 margins), probabilistic primality on real sizes,
 factor recovery from (n, e, d), on-curve tests of the C code (abstract), imports (C13 decides their
 totality; the imported components go through the same constructors).
@@ -21,6 +21,7 @@ totality; the imported components go through the same constructors).
 import operator
 
 from vlib.env import Harness
+from props import ecc_c
 
 NB = {'P-192': 24, 'P-224': 28, 'P-256': 32, 'P-384': 48, 'P-521': 66, 'Curve25519': 32, 'Curve448': 56, 'Ed25519': 32, 'Ed448': 57}
 CB = {'P-192': 24, 'P-224': 28, 'P-256': 32, 'P-384': 48, 'P-521': 66, 'Curve25519': 32, 'Curve448': 56, 'Ed25519': 32, 'Ed448': 56}   # coordinate bytes
@@ -93,8 +94,20 @@ def run_ecc_match(env, sh):
     from Crypto.PublicKey import ECC
     curve = sh['curve']
     kd = _sym_key(env, curve, 'd')
-    ko = _sym_key(env, curve, 'o')
     d = _iv(kd.d)
+    if sh.get('mirror'):
+        # the mirrored point (x, -y) of d*G: same x coordinate, different point (y = 0 does not occur on these curves)
+        p = int(ECC._curves[curve].p)
+        R0 = kd.pointQ
+        qx, qy = _iv(R0.x), p - _iv(R0.y)
+        try:
+            ECC.construct(curve=curve, d=d, point_x=qx, point_y=qy)
+            ok = True
+        except ValueError:
+            ok = False
+        env.check(not ok, 'a private scalar together with the mirrored public point (x, -y) is refused')
+        return
+    ko = _sym_key(env, curve, 'o')
     Q = ko.pointQ
     qx, qy = _iv(Q.x), _iv(Q.y)
     try:
@@ -336,10 +349,44 @@ def run_dsa_construct(env, sh):
     env.check(env.eqv(ok, spec), 'DSA.construct accepts exactly the consistent domain / key tuples')
 
 
+def run_elgamal_construct(env, sh):
+    from Crypto.PublicKey import ElGamal
+    w = sh['w']
+    p, g, y, x = env.int('p', w), env.int('g', w), env.int('y', w), env.int('x', w)
+    priv = sh.get('priv', True)
+    env.assume(p >= 3)
+    real = ElGamal.test_probable_prime
+    ElGamal.test_probable_prime = _TablePrimality(env, w)
+    undo = _small_int_shims(env)
+    try:
+        try:
+            ElGamal.construct((p, g, y, x) if priv else (p, g, y))
+            ok = True
+        except ValueError:
+            ok = False
+    finally:
+        ElGamal.test_probable_prime = real
+        undo()
+
+    def powmod(b, e, m, bits):
+        r = 1
+        acc = b % m
+        for i in range(bits):
+            r = env.ite((e >> i) & 1 == 1, (r * acc) % m, r)
+            acc = (acc * acc) % m
+        return r
+    spec = env.And(_is_prime(env, p, w), g > 1, g < p, y >= 1, y < p)
+    if priv:
+        spec = env.And(spec, x > 1, x < p, powmod(g, x, p, w) == y)
+    env.check(env.eqv(ok, spec), 'ElGamal.construct accepts exactly the consistent tuples (p prime, 1 < g < p, 1 <= y < p, 1 < x < p, y = g^x mod p)')
+
+
 HARNESSES = dict(ecc_coord_range=Harness('ecc_coord_range', run_ecc_coord_range), ecc_d_range=Harness('ecc_d_range', run_ecc_d_range),
                  ecc_match=Harness('ecc_match', run_ecc_match), clamp=Harness('clamp', run_clamp), x_deny=Harness('x_deny', run_x_deny),
                  rsa_construct=Harness('rsa_construct', run_rsa_construct, max_paths=200000, budget_s=3000),
-                 dsa_construct=Harness('dsa_construct', run_dsa_construct, max_paths=200000, budget_s=3000))
+                 dsa_construct=Harness('dsa_construct', run_dsa_construct, max_paths=200000, budget_s=3000),
+                 elgamal_construct=Harness('elgamal_construct', run_elgamal_construct, max_paths=200000, budget_s=3000),
+                 ec_new_point_c=ecc_c.HARNESS_NEW_POINT)
 
 
 def shapes(tier):
@@ -354,6 +401,7 @@ def shapes(tier):
         jobs.append(('ecc_d_range', dict(curve=c, bits=order_bits, pub=True)))
         if th or c in ('P-256', 'P-521'):
             jobs.append(('ecc_match', dict(curve=c)))
+            jobs.append(('ecc_match', dict(curve=c, mirror=True)))
     for c in ('Ed25519', 'Ed448', 'Curve25519', 'Curve448'):
         jobs.append(('clamp', dict(curve=c, n=NB[c], pub=True)))
         for n in (NB[c] - 1, NB[c] + 1, 0):
@@ -364,21 +412,26 @@ def shapes(tier):
         pc = 2 ** 255 - 19 if c == 'Curve25519' else 2 ** 448 - 2 ** 224 - 1
         for base in (0, pc - 4, 2 * pc - 4):
             jobs.append(('x_deny', dict(curve=c, bits=3, base=base)))
+    for c in ('P-192', 'P-224', 'P-256', 'P-384', 'P-521') if th else ('P-256', 'P-521'):
+        jobs.append(('ec_new_point_c', dict(curve=c)))
     for w in (3,) if not th else (3, 4):
         jobs.append(('rsa_construct', dict(w=w)))
     jobs.append(('rsa_construct', dict(w=3, tie_n=False)))
     for w in (5,) if not th else (5, 6):
         jobs.append(('dsa_construct', dict(w=w, priv=True)))
         jobs.append(('dsa_construct', dict(w=w, priv=False)))
+    if th:      # p below 2^3 only, thorough only: the symbolic-modulus power chain g^(p-1) mod p is slow (w = 4, 5: no answer in 450 s, measured)
+        jobs.append(('elgamal_construct', dict(w=3, priv=True)))
+        jobs.append(('elgamal_construct', dict(w=3, priv=False)))
     return jobs
 
 
 BOUNDS = dict(ecc="5 NIST curves + Ed25519 + Ed448 + Curve25519 + Curve448; private scalars: every integer of up to order_bits + 8 bits and small negatives; "
               "points: P + i*p, i < 4, for every public key P of the abstract group; Montgomery x: every value of up to 8n + 3 bits",
               rsa="every tuple (n,e,d,p,q,u) with p, q below 2^3 (thorough 2^4) and the others below 2^(2w)",
-              dsa="every tuple (p,q,g,y,x) with p below 2^5 (thorough 2^6)",
+              dsa="every tuple (p,q,g,y,x) with p below 2^5 (thorough 2^6); ElGamal (thorough only): every tuple (p,g,y,x) below 2^3",
               outside=["generate() loops and FIPS 186-4 size margins on real sizes", "the probabilistic primality tests (replaced by the exact table at reduced width)",
-                       "factor recovery from (n,e,d)", "the on-curve computation of the C code (abstract predicate)", "ElGamal.construct (being added)",
+                       "factor recovery from (n,e,d)", "the on-curve computation of the C code for all coordinates (abstract predicate; ec_new_point_c runs the real ec_ws_new_point on a list of concrete candidates incl. x = 0 / y = 0)", "ElGamal.construct (being added)",
                        "import formats (same constructors; decoding is C13)"])
 ASSUMPTIONS = ["abstract EC group; every C new_point reduces its input modulo p and none checks the range (as in src/: measured on the real library)",
                "SHA-512 / SHAKE256 uninterpreted", "test_probable_prime replaced by the exact primality table below 2^w in rsa_construct / dsa_construct"]
